@@ -9,9 +9,12 @@ checks it performs *directly*, in program order, as terms of `check` (coq/model/
     columnize(name, SHAPE, name=...)                 -> Columnize "name" SHAPE
     vg.shape.check(locals(), "b", a.shape)           -> CheckSame "b" "a"      (also through `s = a.shape`)
     for x in xs: vg.shape.check(locals(), "x", S)    -> CheckEach "xs" S
+    x = x.flatten(); vg.shape.check_value(x, S)      -> CheckFlat "x" S      (x = np.asarray(x) is transparent)
     if a is not None: <check>  /  if a is None: ... else: <check>   -> IfPresent "a" <check>
     if a.shape == T: ... else: vg.shape.check(locals(), "a", S)     -> NeedsShape "a"; CheckAny "a" [T; S]
 
+The checked name must be a parameter of the function that has not been reassigned before the check
+(except by the two forms above and `if not hasattr(x, "__iter__"): x = [x]`).
 SHAPE is a tuple of int literals, -1, names bound by an earlier check of the same function, `self.<attr>`,
 and `-1 if k is None else k`.
 
@@ -90,6 +93,7 @@ class FunctionExtractor:
         self.shape_alias = {}     # name -> arg whose .shape it holds
         self.rebound = set()      # names reassigned by columnize (their .shape is no longer the argument's)
         self.handled = set()      # id() of Call nodes consumed by the grammar
+        self.stored = {}          # name -> how it was (re)assigned so far: asarray | flatten | other
         self.last_check_line = 0
         self.returns = []         # line numbers of return statements
         a = fn.args
@@ -141,8 +145,28 @@ class FunctionExtractor:
     def n_wild(self, pat):
         return pat.count("DAny") + pat.count("DVarOrAny")
 
+    # -- what happened to a checked name before its check ------------------------------------------------------
+    def record_stores(self, node):
+        for x in walk_no_defs(node):
+            if isinstance(x, ast.Name) and isinstance(x.ctx, ast.Store):
+                self.stored[x.id] = "other"
+
+    def subject(self, call, name, loop_var=None):
+        """the checked name must be a parameter whose value still is the argument (np.asarray(x) and
+        x.flatten() are the only recognised re-assignments); returns 'plain' or 'flat'"""
+        if name == loop_var:
+            return "plain"
+        if name not in self.params:
+            _err(self.path, call, "shape check on `%s`, which is not a parameter of the function" % name)
+        how = self.stored.get(name)
+        if how in (None, "asarray"):
+            return "plain"
+        if how == "flatten":
+            return "flat"
+        _err(self.path, call, "`%s` is reassigned before its shape check (the check is not about the argument)" % name)
+
     # -- one check call -----------------------------------------------------------------------------------
-    def one_check(self, call, target):
+    def one_check(self, call, target, loop_var=None):
         """returns the Coq term for this call; `target` is the assignment target (ast node) or None"""
         kind = check_kind(call, self.helpers)
         self.handled.add(id(call))
@@ -165,12 +189,17 @@ class FunctionExtractor:
                     or not isinstance(call.args[1], ast.Constant) or not isinstance(call.args[1].value, str)):
                 _err(self.path, call, "vg.shape.check not of the form check(locals(), \"name\", shape)")
             name = call.args[1].value
+            mode = self.subject(call, name, loop_var)
             src = self.shape_source(call.args[2])
             if src is not None:
-                if bind is not None:
-                    _err(self.path, call, "binding the result of a same-shape check")
+                if bind is not None or mode != "plain":
+                    _err(self.path, call, "binding the result of a same-shape check / same-shape check of a flattened array")
                 return 'CheckSame "%s" "%s"' % (name, src)
             pat = self.pattern(call.args[2])
+            if mode == "flat":
+                if bind is not None:
+                    _err(self.path, call, "binding the result of a check on a flattened array")
+                return 'CheckFlat "%s" %s' % (name, pat)
             if bind is not None:
                 if self.n_wild(pat) > 1:
                     _err(self.path, call, "binding a check with more than one wildcard")
@@ -180,7 +209,12 @@ class FunctionExtractor:
             if len(call.args) != 2 or set(kw) - {"name"} or not isinstance(call.args[0], ast.Name):
                 _err(self.path, call, "vg.shape.check_value not of the form check_value(name, shape[, name=...])")
             name = call.args[0].id
+            mode = self.subject(call, name)
             pat = self.pattern(call.args[1])
+            if mode == "flat":
+                if bind is not None:
+                    _err(self.path, call, "binding the result of a check on a flattened array")
+                return 'CheckFlat "%s" %s' % (name, pat)
             if bind is not None:
                 if self.n_wild(pat) > 1:
                     _err(self.path, call, "binding a check with more than one wildcard")
@@ -190,6 +224,8 @@ class FunctionExtractor:
             if len(call.args) < 2 or set(kw) - {"name"} or not isinstance(call.args[0], ast.Name):
                 _err(self.path, call, "check_shape_any not of the form check_shape_any(name, shape, ..., name=...)")
             name = call.args[0].id
+            if self.subject(call, name) != "plain":
+                _err(self.path, call, "check_shape_any on a flattened array")
             pats = [self.pattern(a) for a in call.args[1:]]
             if bind is not None:
                 if any(self.n_wild(p) > 1 for p in pats):
@@ -200,6 +236,8 @@ class FunctionExtractor:
             if len(call.args) not in (1, 2) or set(kw) - {"name", "shape"} or not isinstance(call.args[0], ast.Name):
                 _err(self.path, call, "columnize not of the form columnize(name[, shape], name=...)")
             name = call.args[0].id
+            if self.subject(call, name) != "plain":
+                _err(self.path, call, "columnize on a flattened array")
             if len(call.args) == 2 and "shape" in kw:
                 _err(self.path, call, "columnize with two shapes")
             she = call.args[1] if len(call.args) == 2 else kw.get("shape")
@@ -262,7 +300,37 @@ class FunctionExtractor:
         if sc:
             call, target = sc
             self.emit(self.one_check(call, target), wrap)
+            if target is not None:
+                self.record_stores(target)
             return
+        # x = np.asarray(x, ...) / np.array(x, ...): the shape of an array argument is unchanged
+        if (isinstance(st, ast.Assign) and len(st.targets) == 1 and isinstance(st.targets[0], ast.Name)
+                and isinstance(st.value, ast.Call) and _attr_chain(st.value.func) in (["np", "asarray"], ["np", "array"])
+                and st.value.args and isinstance(st.value.args[0], ast.Name) and st.value.args[0].id == st.targets[0].id
+                and len(st.value.args) == 1 and set(k.arg for k in st.value.keywords) <= {"dtype"}):
+            if self.stored.get(st.targets[0].id) in (None, "asarray"):
+                self.stored[st.targets[0].id] = "asarray"
+            return
+        # x = x.flatten(): later checks of x are about the flattened array
+        if (isinstance(st, ast.Assign) and len(st.targets) == 1 and isinstance(st.targets[0], ast.Name)
+                and isinstance(st.value, ast.Call) and not st.value.args and not st.value.keywords
+                and isinstance(st.value.func, ast.Attribute) and st.value.func.attr == "flatten"
+                and isinstance(st.value.func.value, ast.Name) and st.value.func.value.id == st.targets[0].id):
+            if self.stored.get(st.targets[0].id) in (None, "asarray", "flatten"):
+                self.stored[st.targets[0].id] = "flatten"
+            return
+        # if not hasattr(x, "__iter__"): x = [x]   -- promotes a Python scalar; never taken for an ndarray
+        if (isinstance(st, ast.If) and not st.orelse and len(st.body) == 1 and isinstance(st.test, ast.UnaryOp)
+                and isinstance(st.test.op, ast.Not) and isinstance(st.test.operand, ast.Call)
+                and isinstance(st.test.operand.func, ast.Name) and st.test.operand.func.id == "hasattr"
+                and len(st.test.operand.args) == 2 and isinstance(st.test.operand.args[0], ast.Name)
+                and isinstance(st.test.operand.args[1], ast.Constant) and st.test.operand.args[1].value == "__iter__"):
+            x = st.test.operand.args[0].id
+            b = st.body[0]
+            if (isinstance(b, ast.Assign) and len(b.targets) == 1 and isinstance(b.targets[0], ast.Name) and b.targets[0].id == x
+                    and isinstance(b.value, ast.List) and len(b.value.elts) == 1 and isinstance(b.value.elts[0], ast.Name)
+                    and b.value.elts[0].id == x):
+                return
         # s = a.shape
         if (isinstance(st, ast.Assign) and len(st.targets) == 1 and isinstance(st.targets[0], ast.Name)
                 and isinstance(st.value, ast.Attribute) and st.value.attr == "shape"
@@ -280,6 +348,7 @@ class FunctionExtractor:
                         if x.id in self.shape_alias or x.id in self.bound:
                             _err(self.path, st, "`%s` (used in shape checks) is reassigned" % x.id)
         if not self.has_check([st]):
+            self.record_stores(st)
             return
         if isinstance(st, ast.If):
             nt = self.none_test(st.test)
@@ -293,6 +362,8 @@ class FunctionExtractor:
                     if self.has_check([s2]) and not self.stmt_check(s2):
                         _err(self.path, s2, "nested construct with a shape check inside an `is None` conditional")
                 self.block(else_, wrap=name)
+                for s2 in then_:
+                    self.record_stores(s2)
                 return
             t = st.test
             if (wrap is None and isinstance(t, ast.Compare) and len(t.ops) == 1 and isinstance(t.ops[0], ast.Eq)
@@ -309,6 +380,7 @@ class FunctionExtractor:
                         pat_else = term[len(prefix):-len(" None")]
                         self.emit('NeedsShape "%s"' % src, None)
                         self.emit('CheckAny "%s" [%s; %s] None' % (src, pat_if, pat_else), None)
+                        self.record_stores(st)
                         return
             _err(self.path, st, "shape check under a conditional outside the grammar")
         if isinstance(st, ast.For):
@@ -317,10 +389,13 @@ class FunctionExtractor:
                     and len(body_checks) == 1 and self.stmt_check(body_checks[0])):
                 call, target = self.stmt_check(body_checks[0])
                 if check_kind(call, self.helpers) == "check" and target is None:
-                    term = self.one_check(call, None)
+                    if self.subject(call, st.iter.id) != "plain":
+                        _err(self.path, st, "loop over a reassigned name")
+                    term = self.one_check(call, None, loop_var=st.target.id)
                     prefix = 'Check "%s" ' % st.target.id
                     if term.startswith(prefix) and term.endswith(" None") and "DVar" not in term:
                         self.emit('CheckEach "%s" %s' % (st.iter.id, term[len(prefix):-len(" None")]), None)
+                        self.record_stores(st)
                         return
             _err(self.path, st, "shape check inside a loop outside the grammar")
         _err(self.path, st, "shape check inside a %s statement / expression (outside the grammar)" % type(st).__name__)
